@@ -373,6 +373,8 @@ fn ledger_scenarios(tier: Tier, extra_probes: &dyn Fn(&Cfg, &Menu) -> Vec<Act>) 
     mk("B11/P1/F1/R2/rur", with_markers(Cfg::new(0, 2, ("0.25", "0.25"), "R2"), "rur"), menu_p1(1, 1), &mut v);
     mk("B11/P1/F1/R0/aua", with_markers(Cfg::new(0, 2, ("0.25", "0.25"), "R0"), "aua"), Menu { prices: vec!["2"], ..menu_p1(1, 1) }, &mut v);
     mk("B11/P2/F1/R0", Cfg::new(1, 10, ("0.25", "0.25"), "R0"), menu_p2(1, 1), &mut v);
+    // (no fees: a fractional executed amount is not stopped by the fee computation)
+    mk("B11/P2/F0/R0", Cfg::new(1, 10, ("", ""), "R0"), Menu { prices: vec!["0.5", "1", "1.5"], match_sizes: vec![1, 5, 10, 15, 20], ..menu_p2(1, 1) }, &mut v);
     // size increment a proper multiple of 10^precision: "price x increment whole" and "price within the precision" differ
     mk("B11/P2/lot-above-tick", Cfg::new(1, 20, ("0.25", "0.25"), "R0"), Menu { prices: vec!["0.5", "1.5"], sizes: vec![20, 40], match_sizes: vec![10, 20, 40], reject_sizes: vec![20], ..menu_p2(1, 1) }, &mut v);
     mk("B11/p14/large-amounts", Cfg::new(14, 300_000_000_000_000, ("0.25", "0.25"), "R0"), menu_large(1, 1), &mut v);
@@ -454,6 +456,38 @@ fn upgrade_family(probes_of: &dyn Fn(&Cfg, &Menu) -> Vec<Act>, restricted: bool)
 /// Wide-value closures: the same tiny book (one ask slot, one bid slot, one order size) explored to
 /// fixpoint for many sizes, price pairs and fee rates — values a small regular alphabet never
 /// contains (around powers of ten and of two, u32 / u64 boundaries, long decimals).
+/// the sweep scenarios whose trigger is a particular spelling or magnitude rather than a rate / price grid: small enough for every quick tier
+pub fn pinned_sweep() -> Vec<Scenario> {
+    value_sweep(Tier::Quick)
+        .into_iter()
+        .filter(|s| {
+            ["prices1.0000000000000000000000000000-", "rates0.0000000000000000025", "rates0.0010000000000000005", "size18446744073709551617/prices1-3", "size400000000000000000001/", "size30000000000000000000000000000/", "size1208925819614629174706181/prices999-1000/rates0.999"]
+                .iter()
+                .any(|k| s.name.contains(k))
+        })
+        .collect()
+}
+
+/// reject / match requests of one unit on every slot, at every price of the menu
+fn unit_probes(cfg: &Cfg, m: &Menu) -> Vec<Act> {
+    let exec = cfg.roles.get("exec");
+    let mut v = vec![];
+    for s in 0..m.ask_slots {
+        v.push(Act::new(exec, vec![], Req::RejectAsk { id: ASK_IDS[s].into(), size: Some(1) }));
+    }
+    for s in 0..m.bid_slots {
+        v.push(Act::new(exec, vec![], Req::RejectBid { id: BID_IDS[s].into(), size: Some(1) }));
+    }
+    for a in 0..m.ask_slots {
+        for b in 0..m.bid_slots {
+            for p in &m.prices {
+                v.push(Act::new(exec, vec![], Req::Match { ask_id: ASK_IDS[a].into(), bid_id: BID_IDS[b].into(), price: p.to_string(), size: 1 }));
+            }
+        }
+    }
+    v
+}
+
 pub fn value_sweep(tier: Tier) -> Vec<Scenario> {
     let leak = |s: String| -> &'static str { Box::leak(s.into_boxed_str()) };
     let mut v = vec![];
@@ -489,6 +523,20 @@ pub fn value_sweep(tier: Tier) -> Vec<Scenario> {
         combos.push(((1u128 << 80) + 5, "999", "1000", "0.999", "0.5"));
         combos.push(((1u128 << 80) + 5, "999", "1000", "0.333", "0.667"));
     }
+    // rates with more decimal places than an 18-digit fixed-point type carries, on amounts where those places decide the rounding
+    for sz in [1_000_000_000_000_000_000u128, (1u128 << 64) + 1] {
+        combos.push((sz, "1", "2", "0.0000000000000000025", "0.0000000000000000015"));
+        combos.push((sz, "1", "2", "0.0010000000000000005", "0.0000000000000000009"));
+    }
+    // prices spelled with as many decimal places as a decimal carries (a long mantissa for a small number), on sizes
+    // from 4e10 to above 2^64; an odd size at price 1 with rate 0.5 (the fee share of a one-unit step sits just below a half)
+    for sz in [40_000_000_000u128, 10_000_000_000_000_000_000, (1u128 << 64) + 1] {
+        combos.push((sz, "1.0000000000000000000000000000", "2.000000000000000000", "0.25", "0.5"));
+    }
+    combos.push(((1u128 << 64) + 1, "1", "3", "0.25", "0.5"));
+    combos.push((400_000_000_000_000_000_001, "1", "2", "0.999", "0.5"));
+    // a quote amount above 1.5e28 returned in thirds (a 28-digit ratio of a third loses whole units there)
+    combos.push((30_000_000_000_000_000_000_000_000_000, "1", "1", "", ""));
     {
         {
             for (sz, lo, hi, ra, rb) in &combos {
@@ -517,7 +565,10 @@ pub fn value_sweep(tier: Tier) -> Vec<Scenario> {
                     quotes: vec![],
                     migrates: vec![],
                 };
-                v.push(scen(leak(format!("sweep/size{sz}/prices{lo}-{hi}/rates{ra}-{rb}")), cfg, menu, vec![]));
+                // one-unit steps as probes (as L requests they would make every remainder of a large order reachable)
+                let mut p = unit_probes(&cfg, &menu);
+                p.extend(probes::fee_creates(&cfg, &menu));
+                v.push(scen(leak(format!("sweep/size{sz}/prices{lo}-{hi}/rates{ra}-{rb}")), cfg, menu, p));
             }
         }
     }
@@ -609,6 +660,8 @@ pub fn plan(prop: &str, tier: Tier) -> Plan {
             }
             if th || matches!(prop, "C01" | "C02") {
                 s.extend(value_sweep(tier));
+            } else {
+                s.extend(pinned_sweep());
             }
             if th {
                 // three orders on one side (one owner holding two of them)
@@ -622,6 +675,8 @@ pub fn plan(prop: &str, tier: Tier) -> Plan {
             let mut s = ledger_scenarios(tier, &|c, m| probes::reversals(c, m));
             if th {
                 s.extend(value_sweep(tier));
+            } else {
+                s.extend(pinned_sweep());
             }
             Plan { scenarios: s, hooks: vec![] }
         }
@@ -756,6 +811,9 @@ pub fn plan(prop: &str, tier: Tier) -> Plan {
             }
             v.extend(upgrade_family(&no_probes, true));
             v.extend(marker_family(&no_probes));
+            if !th {
+                v.extend(pinned_sweep());
+            }
             if th {
                 v.extend(value_sweep(tier));
                 mk("B22/P1/F1/R0", Cfg::new(0, 2, ("0.25", "0.25"), "R0"), menu_p1(2, 2), &mut v);
@@ -786,6 +844,10 @@ pub fn plan(prop: &str, tier: Tier) -> Plan {
             mk("B11/P1/F1/rnn", with_markers(Cfg::new(0, 2, ("0.25", "0.25"), "R0"), "rnn"), small(menu_p1(1, 1)), &mut v);
             mk("B11/P1/F1/unr", with_markers(Cfg::new(0, 2, ("0.25", "0.25"), "R0"), "unr"), small(menu_p1(1, 1)), &mut v);
             mk("B11/P1/F1/rrr", with_markers(Cfg::new(0, 2, ("0.25", "0.25"), "R0"), "rrr"), small(menu_p1(1, 1)), &mut v);
+            // rates with nineteen and more decimal places on amounts where those places decide the fee
+            mk("B11/P0/long-rates", Cfg::new(0, 1, ("0.0000000000000000025", "0.0000000000000000015"), "R0"), small(Menu { sizes: vec![1_000_000_000_000_000_000, 3_000_000_000_000_000_000], ..menu_p0(1, 1, vec!["1", "2"]) }), &mut v);
+            // amounts next to the capacity of a 96-bit decimal (2^96 - 1 = 79228162514264337593543950335)
+            mk("B11/P0/F2/near-2^96", Cfg::new(0, 1, ("0.01", "0.01"), "R0"), small(Menu { sizes: vec![70_000_000_000_000_000_000_000_000_000, 39_614_081_257_132_168_796_771_975_167], ..menu_p0(1, 1, vec!["1", "2"]) }), &mut v);
             mk("B11/P1/F1/aua", with_markers(Cfg::new(0, 2, ("0.25", "0.25"), "R0"), "aua"), small(menu_p1(1, 1)), &mut v);
             mk("B11/base-also-convertible", overlap(Cfg::new(0, 2, ("0.25", "0.25"), "R0")), small(menu_p1(1, 1)), &mut v);
             mk("B11/P1/F1/attrs1", with_attrs(Cfg::new(0, 2, ("0.25", "0.25"), "R0"), &["kyc"], &["kyc"]), small(menu_p1(1, 1)), &mut v);
@@ -883,6 +945,11 @@ pub fn plan(prop: &str, tier: Tier) -> Plan {
                         v.push(scen(&format!("B11/P0/F1/{spec}"), cfg, menu, p));
                     }
                 }
+            }
+            // the base denomination is also a quote denomination; base and convertible denomination differ in kind
+            for spec in ["ru", "ur", "rn"] {
+                let cfg = with_markers(quote_is_base(Cfg::new(0, 2, ("0.25", "0.25"), "R0")), spec);
+                v.push(scen(&format!("B11/quote-is-base/{spec}"), cfg, Menu { prices: vec!["2"], ..menu_p1(1, 1) }, vec![]));
             }
             // restricted markers whose marker account lists required attributes are restricted markers all the same
             for spec in ["ann", "nan", "nna", "aua", "aaa"] {
